@@ -1704,8 +1704,23 @@ fn gen_one(rng: &mut Rng, tier: Tier, interpret: bool, partial: &Mutex<Partial>)
     let mut next_w = 100u64;
     let mut ops: Vec<Op> = Vec::new();
     let mut last_call: Vec<u64> = Vec::new();
-    for i in 0..len {
-        let op = if Some(i) == drop_s_at {
+    // a flush storm (one schedule in sixteen): 66-100 flushes in a row, all waiting on the same batch — "any number of
+    // concurrent flushers"
+    let mut storm_at = if rng.chance(1, 16) { Some(rng.usize(len + 1)) } else { None };
+    let mut storm: Vec<Op> = Vec::new();
+    let mut i = 0usize;
+    while i < len || !storm.is_empty() {
+        if Some(i) == storm_at {
+            storm_at = None;
+            for _ in 0..rng.range(66, 100) {
+                next_w += 1;
+                storm.push(Op::Flush(next_w));
+            }
+        }
+        let from_storm = !storm.is_empty();
+        let op = if let Some(o) = storm.pop() {
+            o
+        } else if Some(i) == drop_s_at {
             Op::DropSender
         } else if Some(i) == drop_r_at {
             Op::DropReceiver
@@ -1843,6 +1858,9 @@ fn gen_one(rng: &mut Rng, tier: Tier, interpret: bool, partial: &Mutex<Partial>)
             }
         }
         ops.push(op);
+        if !from_storm {
+            i += 1;
+        }
     }
     render_case(cap, &sp, &win, &ops)
 }
